@@ -87,6 +87,11 @@ impl El for f32 {
 // ---------------------------------------------------------------------------------------------
 
 fn alloc_backing<T: El>(shape: &[usize], lay: Lay, fill: T) -> ArrayD<T> {
+    if let Lay::Mix { perm, step, .. } = lay {
+        let p = nth_perm(shape.len(), perm as usize);
+        let dims: Vec<usize> = p.iter().map(|&a| if step >> a & 1 == 1 { 2 * shape[a] + 2 } else { shape[a] + 2 }).collect();
+        return ArrayD::from_elem(IxDyn(&dims), fill);
+    }
     let mut dims: Vec<usize> = shape
         .iter()
         .enumerate()
@@ -108,7 +113,32 @@ fn alloc_backing<T: El>(shape: &[usize], lay: Lay, fill: T) -> ArrayD<T> {
     ArrayD::from_elem(IxDyn(&dims), fill)
 }
 
+/// memory axis m holds logical axis p[m]; returns (slices per memory axis, inverse permutation)
+fn mix_plan(shape: &[usize], perm: u16, rev: u8, step: u8) -> (Vec<Slice>, Vec<usize>) {
+    let n = shape.len();
+    let p = nth_perm(n, perm as usize);
+    let mut inv = vec![0usize; n];
+    let mut sl = vec![];
+    for (m, &a) in p.iter().enumerate() {
+        inv[a] = m;
+        let d = shape[a] as isize;
+        let st: isize = if step >> a & 1 == 1 { 2 } else { 1 };
+        let sg: isize = if rev >> a & 1 == 1 { -1 } else { 1 };
+        sl.push(Slice::new(1, Some(1 + d * st), st * sg));
+    }
+    (sl, inv)
+}
+
 fn window<'a, T: El>(mut v: ArrayViewMutD<'a, T>, shape: &[usize], lay: Lay) -> ArrayViewMutD<'a, T> {
+    if let Lay::Mix { perm, rev, step } = lay {
+        let (sl, inv) = mix_plan(shape, perm, rev, step);
+        for (m, s) in sl.into_iter().enumerate() {
+            v.slice_axis_inplace(Axis(m), s);
+        }
+        let v = v.permuted_axes(IxDyn(&inv));
+        debug_assert_eq!(v.shape(), shape);
+        return v;
+    }
     let n = shape.len();
     for k in 0..n {
         // for F the backing has reversed axes
@@ -124,6 +154,7 @@ fn window<'a, T: El>(mut v: ArrayViewMutD<'a, T>, shape: &[usize], lay: Lay) -> 
             Lay::Window | Lay::F => Slice::new(1, Some(1 + d), 1),
             Lay::Step2 => Slice::new(1, Some(1 + 2 * d), 2),
             Lay::Rev => Slice::new(1, Some(1 + d), -1),
+            Lay::Mix { .. } => unreachable!("handled above"),
         };
         v.slice_axis_inplace(Axis(k), sl);
     }
@@ -801,7 +832,16 @@ pub fn exec(slot: &dyn Slot, op: &Op) -> Outcome {
     // slot's element type is `Yf`; yields only when the thread runs under the baton)
     crate::yelem::arm(op.yield_mask, op.elem_fault);
     let noctx0 = stub::NOCTX_CALLBACKS.load(std::sync::atomic::Ordering::Relaxed);
+    // calls made outside the baton (reference tabulation, epilogue: main thread) have no
+    // supervisor of their own: the process-level watchdog looks at this time stamp
+    let unsupervised = crate::watch::enabled() && !crate::sched::on_client_thread();
+    if unsupervised {
+        crate::watch::begin(op.plan.iter().any(|a| matches!(a, Act::Nest { .. })));
+    }
     let mut out = slot.call(&op.call);
+    if unsupervised {
+        crate::watch::end();
+    }
     let foreign = stub::NOCTX_CALLBACKS.load(std::sync::atomic::Ordering::Relaxed) != noctx0;
     let (elem_yields, fired) = crate::yelem::disarm();
     stub::CUR_SLOT.with(|c| c.set(prev));
@@ -847,10 +887,36 @@ fn data_array<T: El, D: Dimension>(cfg: &SlotCfg) -> Result<Array<T, D>, BuildFa
         f.assign(&a);
         a = f;
     }
+    if let (Lay::Mix { perm, rev, .. }, true) = (cfg.data_lay, matches!(cfg.storage, Storage::Owned | Storage::Shared)) {
+        // an owned array whose axes are permuted in memory and partly inverted (what
+        // `permuted_axes` / `invert_axis` on an owned array give); same logical contents
+        let n = cfg.shape.len();
+        let p = nth_perm(n, perm as usize);
+        let mut inv = vec![0usize; n];
+        for (m, &ax) in p.iter().enumerate() {
+            inv[ax] = m;
+        }
+        let dims_mem: Vec<usize> = p.iter().map(|&ax| cfg.shape[ax]).collect();
+        let mut f = ArrayD::from_elem(IxDyn(&dims_mem), T::from64(0.0)).permuted_axes(IxDyn(&inv));
+        for ax in 0..n {
+            if rev >> ax & 1 == 1 {
+                f.invert_axis(Axis(ax));
+            }
+        }
+        f.assign(&a);
+        a = f;
+    }
     a.into_dimensionality::<D>().map_err(|e| BuildFail::Unsupported(format!("data rank: {e}")))
 }
 
 fn window_ref<'a, T: El>(mut v: ndarray::ArrayViewD<'a, T>, shape: &[usize], lay: Lay) -> ndarray::ArrayViewD<'a, T> {
+    if let Lay::Mix { perm, rev, step } = lay {
+        let (sl, inv) = mix_plan(shape, perm, rev, step);
+        for (m, s) in sl.into_iter().enumerate() {
+            v.slice_axis_inplace(Axis(m), s);
+        }
+        return v.permuted_axes(IxDyn(&inv));
+    }
     let n = shape.len();
     for k in 0..n {
         let d = if lay == Lay::F { shape[n - 1 - k] } else { shape[k] } as isize;
@@ -865,6 +931,7 @@ fn window_ref<'a, T: El>(mut v: ndarray::ArrayViewD<'a, T>, shape: &[usize], lay
             Lay::Window | Lay::F => Slice::new(1, Some(1 + d), 1),
             Lay::Step2 => Slice::new(1, Some(1 + 2 * d), 2),
             Lay::Rev => Slice::new(1, Some(1 + d), -1),
+            Lay::Mix { .. } => unreachable!("handled above"),
         };
         v.slice_axis_inplace(Axis(k), sl);
     }
